@@ -168,6 +168,7 @@ static Verdict run(const Case &c) { return c.c(0) == 1 ? run_hist(c) : c.c(0) ==
 int main(int argc, char **argv) {
     Args a = parse_args(argc, argv);
     if (!a.replay.empty()) return replay_case(a, run);
+    zygote_start(run);   // before any code under test runs in this process
     Current::install(a.failing);
     Evidence ev;
     ev.rule = "(1) exhaustive single steps: 3 states x inputs -128..255 x elapsed {0, t-1, t, t+1, 10t} s (Idle: {0,1,5,31,300}) from a fresh automaton driven into the start state by legal inputs, "
